@@ -75,6 +75,8 @@ def build_classes(desc):
             kw["key"] = cd["key"]  # a subclass may disable (None) or rename the key of its parent
         if cd.get("overflow"):
             kw["init_overflow_attr"] = cd["overflow"]
+        if cd.get("frozen"):
+            kw["frozen"] = True
         env[cd["name"]] = spec_class(**kw)(cls)
     return env
 
@@ -426,6 +428,8 @@ def typed_value(target_cd, k, n):
     """a well-typed value for keyword k of a constructor of target_cd (None: leave this keyword out)"""
     for a in all_attrs(target_cd):
         if a["name"] == k:
+            if a.get("form", "none") == "noinit" and eff_overflow(target_cd):
+                return n  # not init-enabled: covered by the ** catch-all only, lands in the overflow dictionary
             if a.get("form", "none") in ("property", "noinit"):
                 return None
             return n if a["ty"] == "int" else (f"s{n}" if a["ty"] == "str" else None)
@@ -450,7 +454,7 @@ def keyword_sets(target_cd, adv_names, catch_all, must):
     ** catch-all is advertised -- keywords it alone covers, alone and mixed with named ones;
     consecutive sets differ, so state kept between calls (caches) is exercised"""
     named = [k for k in adv_names if typed_value(target_cd, k, 1) is not None and k not in must]
-    extra = ["zzz", "yyy"] if catch_all else []
+    extra = (["zzz", "yyy"] + [a["name"] for a in all_attrs(target_cd) if a.get("form") == "noinit"][:2]) if catch_all else []
     sets = [[k] for k in named[:6]]
     sets += [[e] for e in extra]
     pool = named[:4] + extra
@@ -472,7 +476,7 @@ def effects_for(env, by_name, cd, cls, mname, pat, kind, adv):
         if a is None:
             return []
         base, _, ref = a["ty"].partition(":")
-        if not isinstance(pat, tuple) and base == "nested" and mname.startswith(("with_", "update_")):
+        if not isinstance(pat, tuple) and base == "nested" and mname.startswith(("with_", "update_", "transform_")):
             target_cd, mode = by_name[ref], "attr"
         elif isinstance(pat, tuple) and pat[0] == "with" and base in ("list_nested", "dict_nested", "klist"):
             target_cd, mode = by_name[ref], base
@@ -488,18 +492,43 @@ def effects_for(env, by_name, cd, cls, mname, pat, kind, adv):
     must = [tkey] if tkey and not any(x["name"] == tkey and x.get("form", "none") != "none" for x in all_attrs(target_cd)) else []
     out = []
     counter = [2000]
-    for ks in keyword_sets(target_cd, adv_kw, catch_all, must):
+    is_transform = mname.startswith("transform_")
+    attr_names = {a["name"] for a in all_attrs(target_cd)}
+    for seq, ks in enumerate(keyword_sets(target_cd, adv_kw, catch_all and not is_transform, must)):
         kw = {}
         for k in ks:
             counter[0] += 1
             kw[k] = typed_value(target_cd, k, counter[0])
+        if is_transform:
+            kw = {k: v for k, v in kw.items() if k in attr_names}
+            if not kw:
+                continue
+        # nested attribute helpers: value not set yet (constructor path) / already set, copy / already set, in place
+        path = 0 if mode != "attr" else (1 + seq % 2 if is_transform else seq % 3)
+        if path:
+            # an existing nested value is updated, not constructed: only keywords naming init-enabled
+            # attributes are judged (what a **overflow keyword means for an existing object is not documented)
+            named_ok = {a["name"] for a in all_attrs(target_cd) if a.get("form", "none") != "noinit"}
+            kw = {k: v for k, v in kw.items() if k in named_ok}
+            if not kw:
+                path = 0
+                kw = {k: typed_value(target_cd, k, 3000 + i) for i, k in enumerate(ks)}
         try:
             if mode == "init":
                 target = cls(**kw)
             else:
                 recv = make_instance(cls, cd)
                 if mode == "attr":
-                    target = getattr(getattr(recv, mname)(**kw), mname.split("_", 1)[1])
+                    aname = mname.split("_", 1)[1]
+                    call_kw = dict(kw)
+                    if path:
+                        tcls = env[target_cd["name"]]
+                        recv = getattr(recv, "with_" + aname)(tcls(**({tkey: "k0"} if tkey else {})))
+                        if path == 2 and not cd.get("frozen"):
+                            call_kw["_inplace"] = True
+                    if is_transform:
+                        call_kw = {k: ((lambda old, v=v: v) if k in kw else v) for k, v in call_kw.items()}
+                    target = getattr(getattr(recv, mname)(**call_kw), aname)
                 elif mode == "dict_nested":
                     coll = getattr(getattr(recv, mname)("key", **kw), pat[1])
                     target = coll["key"]
@@ -671,9 +700,12 @@ FIXED = [
                               {"name": "r", "ty": "int", "form": "noinit", "default": 13},
                               {"name": "_h", "ty": "int", "form": "value", "default": 14}]},
      {"name": "K", "key": "k", "attrs": [{"name": "k", "ty": "str"}, {"name": "v", "ty": "int", "form": "value", "default": 15}]},
-     {"name": "O", "overflow": "extra", "attrs": [{"name": "a", "ty": "int", "form": "value", "default": 16}]},
+     {"name": "O", "overflow": "extra", "attrs": [{"name": "a", "ty": "int", "form": "value", "default": 16},
+                                                     {"name": "hid", "ty": "int", "form": "noinit", "default": 40}]},
+     {"name": "F", "frozen": True, "attrs": [{"name": "fa", "ty": "int", "form": "value", "default": 41},
+                                              {"name": "fb", "ty": "int", "form": "value", "default": 42}]},
      {"name": "C", "attrs": [{"name": "x", "ty": "int", "form": "value", "default": 17},
-                              {"name": "n", "ty": "nested:N"}, {"name": "o", "ty": "nested:O"},
+                              {"name": "n", "ty": "nested:N"}, {"name": "o", "ty": "nested:O"}, {"name": "fr", "ty": "nested:F"},
                               {"name": "ns", "ty": "list_nested:N", "form": "factory"},
                               {"name": "d", "ty": "dict_nested:N"}, {"name": "s", "ty": "set"},
                               {"name": "ks", "ty": "klist:K"}, {"name": "kt", "ty": "kset:K"},
@@ -749,6 +781,8 @@ def random_desc(rng, nclasses):
         strs = [x for x in strs if x != "kwargs"]  # key="kwargs": __init__ cannot be built (see docs/C17.md)
         if r < 0.35 and strs:
             cd["key"] = rng.choice(strs)
+        if rng.random() < 0.2:
+            cd["frozen"] = True
         if rng.random() < 0.3:
             cd["overflow"] = rng.choice(["extra", "rest"] + [a["name"] for a in attrs if a["ty"] == "dict"][:1])
         desc.append(cd)
